@@ -752,6 +752,26 @@ class TrajectoryStore:
                 'field sets as the NetCDF files of the store'
             )
 
+        # Species-indexed values can only be stored for species in the species
+        # dimension of the NetCDF files, which is fixed when the files are
+        # created. Like every other refusal, this one has to come before any
+        # state is changed.
+        if self.nc_linked:
+            for name, field in trajectory._data_dictionary.items():
+                val = trajectory._data.get(name)
+                if Dimension.SPECIES not in field.dimensions or val is None:
+                    continue
+                fs_name = next(
+                    (n for n in self._nc if name in FieldSet.from_registry(n)), None
+                )
+                file_species = self._nc[fs_name].species if fs_name else None
+                missing = [sp.name for sp in val if sp not in (file_species or [])]
+                if missing:
+                    raise ValueError(
+                        f'Data field "{name}" has species {missing} that are not in '
+                        'the species dimension of the NetCDF file'
+                    )
+
         # All required values must be present. This is checked here, before
         # any state is changed, so that a rejected trajectory leaves the store
         # and its files exactly as they were.
